@@ -25,7 +25,7 @@ ID = "C36"
 LEVEL = "exploration"
 TIERS = {
   "quick": {"runs": 48, "chunk": 1, "budget_s": 480, "timeout_s": 500},
-  "thorough": {"runs": 480, "chunk": 1, "budget_s": 3300, "timeout_s": 600},
+  "thorough": {"runs": 192, "chunk": 1, "budget_s": 1800, "timeout_s": 600},
 }
 RULE = ("one evaluation = one target program executed after a polluter sequence and compared (per-step digests) with the same target in a fresh "
         "interpreter; polluter sequences (1-5 programs) are drawn from (seed, index) so that they differ from the target in cache-keying "
